@@ -1,14 +1,24 @@
-(* Executable model of comb_spec_searcher/rule_db/forest.py: Function and
+(* LAYER A: executable model of comb_spec_searcher/rule_db/forest.py: Function and
    TableMethod.  Same algorithm as the code: a processing queue, the set of
    rules "holding extra terms", the cached gap, increase_value/set_infinite.
-   Simplification (layer A of DESIGN.md): whether a rule can give a term is
-   decided from the current table (child value + shift - parent value > 0)
-   instead of from the incrementally maintained _shifts lists; and the rules
-   re-queued after a change are "all rules mentioning the class that can fire",
-   in index order.  The observable answers (function, is_pumping,
-   pumping_subuniverse) do not depend on these choices — that is exactly what
-   Props/C03.v proves — and the correspondence compares those answers with the
-   real TableMethod after every operation.
+   Simplifications (layer A of DESIGN.md) — this is an ABSTRACTION of the code:
+   - whether a rule can give a term is decided from the current table (child
+     value + shift - parent value > 0) instead of from the cached, incrementally
+     updated _shifts rows the code reads;
+   - the rules re-queued after a change are "all rules mentioning the class that
+     can fire", once each, in index order (the code: _rules_pumping_class then
+     _rules_using_class, once per registered (rule, child) pair, duplicates);
+   - _preimage_count is the histogram recomputed from the values;
+   - the value table is grown to cover every label of an inserted key (the code
+     does not look up the children of a rule whose parent is already infinite);
+   - the held set is released in insertion order.
+   The theorems of Props/C03.v named C03_sound_complete ... C03_total_* are about THIS
+   schedule (for every `pick`).  That the observable answers (function,
+   is_pumping, pumping_subuniverse) do not depend on these choices is proved
+   separately: Forest/SchedDefs.v generalises this layer over the re-queue list,
+   the release order and the table growth (layer S, theorems C03_S_...), this layer is
+   one schedule of it (C03_A_is_S), and Forest/ModelB.v — the data structures
+   of the code as they are — is another one (C03_B_refines_S, C03_B_refines_A).
    set.pop() on the held set is an arbitrary choice: modelled by the oracle
    `pick`, universally quantified in the theorems. *)
 From Coq Require Import ZArith List Bool Lia.
